@@ -286,10 +286,22 @@ class NdArray:
     __hash__ = None
 
     def _arith(self, o, op):
-        if isinstance(o, (NdArray, list, tuple, str)) or self.dtype in (
-                "str",):
-            raise AnalysisError("model: array arithmetic beyond "
-                                "array-with-scalar")
+        if isinstance(o, (list, tuple)):
+            o = NdArray.of(o)
+        if isinstance(o, str) or self.dtype == "str" or (
+                isinstance(o, NdArray) and o.dtype == "str"):
+            raise AnalysisError("model: arithmetic on string arrays")
+        if isinstance(o, NdArray):
+            if o.shape != self.shape:
+                raise ValueError("operands could not be broadcast together")
+
+            def rec2(d, e, depth):
+                if depth == len(self.shape):
+                    return op(d, e)
+                return [rec2(x, y, depth + 1) for x, y in zip(d, e)]
+            flt = "float" in (self.dtype, o.dtype)
+            return NdArray(rec2(self.data, o.data, 0), self.shape,
+                           "float" if flt else "int")
 
         def rec(d, depth):
             if depth == len(self.shape):
@@ -315,6 +327,9 @@ class NdArray:
     def tolist(self):
         return self.data
 
+    def copy(self):
+        return NdArray.of(self)
+
     def flat(self):
         out = []
 
@@ -331,7 +346,8 @@ class NdArray:
         return f"np.array({self.data!r})"
 
 
-def _np_array(obj, dtype=None):
+def _np_array(obj, dtype=None, copy=True):
+    src = obj
     if dtype is not None:
         if dtype is NpFloat or dtype is float:
             dtype = "float"
@@ -341,7 +357,25 @@ def _np_array(obj, dtype=None):
             dtype = "bool"
         else:
             raise AnalysisError(f"model: np.array dtype {dtype!r}")
+    if not copy and isinstance(src, NdArray) and dtype in (None, src.dtype):
+        return src      # no copy needed: the very same array (alias)
     return NdArray.of(obj, dtype)
+
+
+def _np_asarray(obj, dtype=None):
+    """np.asarray: returns the argument itself when it already is an array
+    of the requested dtype"""
+    return _np_array(obj, dtype, copy=False)
+
+
+def _np_diff(a):
+    a = a if isinstance(a, NdArray) else NdArray.of(a)
+    if a.ndim != 1:
+        raise AnalysisError("model: np.diff of a non 1-d array")
+    d = a.data
+    out = [d[i + 1] - d[i] for i in range(len(d) - 1)]
+    return NdArray(out, (len(out),), "float" if a.dtype == "float"
+                   else "int")
 
 
 class Namespace:
@@ -355,7 +389,8 @@ class Namespace:
         return f"<{self._name}>"
 
 
-NP = Namespace("numpy", array=_np_array, asarray=_np_array, ndarray=NdArray,
+NP = Namespace("numpy", array=_np_array, asarray=_np_asarray, diff=_np_diff,
+               ndarray=NdArray,
                bool_=NpBool, float64=NpFloat, int64=NpInt)
 
 
